@@ -28,16 +28,24 @@ def sh(cmd, cwd=None, timeout=3600, env=None):
 
 
 def main():
+    if sys.argv[1] == '--cleanup':
+        sh('git -C %s worktree remove --force /tmp/vs_wt' % REPO)
+        shutil.rmtree('/tmp/vs_wt', ignore_errors=True)
+        return 0
     src, pid, name = sys.argv[1], sys.argv[2], sys.argv[3]
     only = sys.argv[4:]
     patch = os.path.join(src, 'patch.diff')
     meta = json.load(open(os.path.join(src, 'meta.json'))) if os.path.exists(os.path.join(src, 'meta.json')) else {}
     report = dict(property=pid, name=name, source_meta=meta, steps=[])
-    wt = '/tmp/vs_%s' % name
-    sh('git -C %s worktree remove --force %s' % (REPO, wt))
-    shutil.rmtree(wt, ignore_errors=True)
-    rc, out = sh('git -C %s worktree add --detach %s HEAD' % (REPO, wt))
-    assert rc == 0, out
+    # one scratch worktree (outside /repo and /verif) reused across seeded changes so that cargo rebuilds
+    # incrementally; `tools/verify_seeded.py --cleanup` removes it with its build output
+    wt = '/tmp/vs_wt'
+    if os.path.isdir(os.path.join(wt, '.git')) or os.path.isfile(os.path.join(wt, '.git')):
+        sh('git checkout -q --detach %s && git checkout -- . && git clean -fdq -e target' % sh('git -C %s rev-parse HEAD' % REPO)[1].strip(), cwd=wt)
+    else:
+        shutil.rmtree(wt, ignore_errors=True)
+        rc, out = sh('git -C %s worktree add --detach %s HEAD' % (REPO, wt))
+        assert rc == 0, out
     env = dict(os.environ, CARGO_NET_OFFLINE='true', CARGO_TARGET_DIR=os.path.join(wt, 'target'))
     confirmed = False
     try:
@@ -81,8 +89,7 @@ def main():
         confirmed = suite_ok and rc_mut != 0 and rc_clean == 0
         report['confirmed'] = confirmed
     finally:
-        sh('git -C %s worktree remove --force %s' % (REPO, wt))
-        shutil.rmtree(wt, ignore_errors=True)
+        sh('git checkout -- . && git clean -fdq -e target', cwd=wt)
         shutil.rmtree(os.path.join(src, 'demo', 'target'), ignore_errors=True)
         shutil.rmtree('/tmp/vsdemo_%s' % name, ignore_errors=True)
     print('confirmed:', confirmed, json.dumps(report['steps'], indent=1)[:1500])
@@ -101,7 +108,10 @@ def main():
         order = only or ([pid] if pid in all_ids else []) + [i for i in all_ids if i != pid]
         for cid in order:
             t0 = time.time()
-            rc, out = sh('tools/check %s quick' % cid, cwd=VERIF, timeout=3600)
+            # the property's own check runs in full (directed search for a failing input included); the other checks
+            # skip that search (VERIF_NO_SEARCH): they still report failing inputs found in their quick tier
+            cenv = dict(os.environ) if cid == pid else dict(os.environ, VERIF_NO_SEARCH='1')
+            rc, out = sh('tools/check %s quick' % cid, cwd=VERIF, timeout=3600, env=cenv)
             viol = [l for l in out.splitlines() if l.startswith('VIOLATION')]
             caught[cid] = dict(rc=rc, violation=viol[:2], wall_s=round(time.time() - t0, 1))
             print(cid, rc, viol[:1], round(time.time() - t0, 1), flush=True)
@@ -118,9 +128,20 @@ def main():
         # the evidence / replay files written while the change was applied are not evidence for the unchanged tree
         sh('git -C %s checkout -- evidence' % VERIF)
         sh('git -C %s clean -fdq replays' % VERIF)
+    dst = os.path.join(VERIF, 'seeded', name)
+    if only and os.path.exists(os.path.join(dst, 'meta.json')):
+        # re-run of some checks (after strengthening them): keep the recorded results of the others
+        prev = json.load(open(os.path.join(dst, 'meta.json')))
+        history = prev.get('earlier_runs', [])
+        for cid in only:
+            if cid in prev.get('checks_run', {}):
+                history.append({cid: prev['checks_run'][cid]})
+        merged = dict(prev.get('checks_run', {}))
+        merged.update(caught)
+        caught = merged
+        report['earlier_runs'] = history
     report['checks'] = caught
     report['caught_by'] = [c for c, v in caught.items() if v['rc'] != 0]
-    dst = os.path.join(VERIF, 'seeded', name)
     shutil.rmtree(dst, ignore_errors=True)
     os.makedirs(dst)
     shutil.copy(patch, os.path.join(dst, 'patch.diff'))
@@ -131,6 +152,8 @@ def main():
     m = dict(breaks_property=pid, summary=meta.get('summary'), mechanism=meta.get('mechanism'),
              needs_to_manifest=meta.get('needs_to_manifest'), confirmed_by=report['steps'],
              checks_run=caught, caught_by=report['caught_by'], first_replay_check=report.get('first_replay_check'))
+    if report.get('earlier_runs'):
+        m['earlier_runs'] = report['earlier_runs']
     json.dump(m, open(os.path.join(dst, 'meta.json'), 'w'), indent=1)
     print('caught by:', report['caught_by'])
     return 0
